@@ -15,8 +15,8 @@ func (cw *CodeWriter) WriteLeadingComments(comments []string) {
 	for i, comment := range comments {
 		isComment := len(comment) > 0
 		if i == 0 {
-			if isComment {
-				cw.Builder.WriteRune(' ')
+			if isComment && cw.Builder.Len() > 0 {
+				cw.raw(" ")
 			}
 		} else {
 			cw.writeNewline()
@@ -25,9 +25,9 @@ func (cw *CodeWriter) WriteLeadingComments(comments []string) {
 			}
 		}
 		if isComment {
-			cw.Builder.WriteString("//")
+			cw.raw("//")
 		}
-		cw.Builder.WriteString(comment)
+		cw.raw(comment)
 	}
 
 	// Clear pendings and move to the next line
